@@ -96,7 +96,9 @@ def history_run(ctx, rng, nd, length):
     """A random history on live objects; returns the (spec, observed) pairs of its Call operations."""
     from numdifftools import finite_difference as fdm
     pool, obs = [], []
-    shared = nd.MinStepGenerator(base_step=0.01, step_ratio=2.0, num_steps=9)
+    # one generator with an explicit ratio, one with the default (n-dependent) ratio
+    shared = nd.MinStepGenerator(base_step=0.01, step_ratio=2.0, num_steps=9) if rng.random() < 0.5 else nd.MinStepGenerator(base_step=0.01, num_steps=9)
+    shared_default_ratio = shared._step_ratio is None
     for _ in range(length):
         op = str(rng.choice(['construct', 'call', 'call', 'call', 'set-restore', 'share-gen', 'clear', 'prepopulate']))
         if op == 'construct' or not pool:
@@ -119,19 +121,23 @@ def history_run(ctx, rng, nd, length):
             if s['class'] == 'Derivative':
                 which = str(rng.choice(['n', 'order', 'method']))
                 old = getattr(d, which)
-                tmp = {'n': int(rng.integers(0, 5)), 'order': int(rng.choice([2, 4, 6])), 'method': str(rng.choice(['central', 'forward', 'backward']))}[which]
+                tmp = {'n': int(rng.choice([2, 3])) if old == 1 else int(rng.choice([0, 1, 1, 4])), 'order': int(rng.choice([2, 4, 6])), 'method': str(rng.choice(['central', 'forward', 'backward']))}[which] if which != 'n' or True else None
                 if which == 'method' and s['kw']['method'] in ('complex', 'multicomplex'):
                     continue          # the property speaks of restoring a real-step method
                 setattr(d, which, tmp)
-                if rng.random() < 0.5:
+                if rng.random() < 0.8:
                     try:
                         d(0.7)
                     except Exception:   # noqa  (e.g. too few user steps for the temporary configuration)
                         pass
                 setattr(d, which, old)
+                # the restored object must behave as a fresh one
+                val, info = d(np.array(s['x']) if isinstance(s['x'], list) else s['x'])
+                obs.append((s, {'value': hexify(val), 'error_estimate': hexify(info.error_estimate), 'final_step': hexify(info.final_step),
+                                'index': [int(i) for i in np.atleast_1d(info.index).ravel()]}))
         elif op == 'share-gen':
             s = random_spec(rng)
-            s['step'] = {'_kind': 'min', 'base_step': 0.01, 'step_ratio': 2.0, 'num_steps': 9}
+            s['step'] = {'_kind': 'min', 'base_step': 0.01, 'num_steps': 9} if shared_default_ratio else {'_kind': 'min', 'base_step': 0.01, 'step_ratio': 2.0, 'num_steps': 9}
             if s['class'] == 'Derivative' and s['kw'].get('n', 1) + s['kw'].get('order', 2) > 9:
                 continue
             f = eval(s['fsrc'], {'np': np})
